@@ -37,6 +37,9 @@ func (t NewFlowTrace) Unpack() any { return t.FlowId }
 type FlowTrace struct {
 	Source schema.FlowNodeInterface
 	Flows  []Snapshot
+	// Origin is the flow that took (or forked into) Flows; it is listed among
+	// them only if its own sequence flow was taken
+	Origin id.Id
 }
 
 func (t FlowTrace) Unpack() any { return t.Source }
